@@ -9,6 +9,8 @@ import (
 	"sync"
 
 	"github.com/hashicorp/raft"
+	"runtime"
+	"strings"
 )
 
 // Disk is the durable image of one server. It survives crashes; everything
@@ -305,7 +307,7 @@ func (s *SimLog) DeleteRange(min, max uint64) error {
 	}
 	inc.disk.logVer++
 	if emit {
-		inc.node.c.Tr.Emit("store", inc.node.ID, M{"op": "delrange", "min": min, "max": max, "first": lo, "last": hi})
+		inc.node.c.Tr.Emit("store", inc.node.ID, M{"op": "delrange", "min": min, "max": max, "first": lo, "last": hi, "by": deleteCaller()})
 	}
 	return nil
 }
@@ -441,4 +443,30 @@ func (s *SimSnap) Open(id string) (*raft.SnapshotMeta, io.ReadCloser, error) {
 		}
 	}
 	return nil, nil, fmt.Errorf("sim: snapshot %s not found", id)
+}
+
+// deleteCaller names the library routine a DeleteRange comes from: "reset" (removeOldLogs), "compact" (compactLogs*),
+// "truncate" (appendEntries), "restore" (restoreUserSnapshot) or "".
+func deleteCaller() string {
+	pcs := make([]uintptr, 24)
+	n := runtime.Callers(3, pcs)
+	fr := runtime.CallersFrames(pcs[:n])
+	by := ""
+	for {
+		f, more := fr.Next()
+		switch {
+		case strings.HasSuffix(f.Function, ").removeOldLogs"):
+			return "reset"
+		case strings.Contains(f.Function, ").compactLogs") && by == "":
+			by = "compact"
+		case strings.HasSuffix(f.Function, ").appendEntries") && by == "":
+			by = "truncate"
+		case strings.HasSuffix(f.Function, ").restoreUserSnapshot") && by == "":
+			by = "restore"
+		}
+		if !more {
+			break
+		}
+	}
+	return by
 }
